@@ -475,9 +475,24 @@ class Flags:
     def __init__(self):
         self.renumbered = set()
         self.h_copied = set()
+        self.intxn = {}          # object -> was it `renumbered` when its transaction was entered
 
     def update(self, op, created, exc):
         name, o = op[0], op[1]
+        # inside a transaction edits do not relabel (that happens at the successful exit); an aborted transaction gives back
+        # the labels of the snapshot, i.e. the comparison state the object had at `enter`
+        if name == 'enter' and exc is None:
+            self.intxn[o] = o in self.renumbered
+        elif name == 'exitExc' and exc is None and o in self.intxn:
+            if self.intxn.pop(o):
+                self.renumbered.add(o)
+            else:
+                self.renumbered.discard(o)
+            return
+        elif name == 'exitOk' and exc is None:
+            self.intxn.pop(o, None)
+        elif name in ('addAtom', 'addBond', 'delAtom', 'delBond') and o in self.intxn:
+            return
         if name == 'remap':
             self.renumbered.add(o)
         elif name == 'opIor':
